@@ -33,3 +33,10 @@ func verifAtomIs(i int, name string) bool      { return false }
 func verifAtomNArgs(i int) int                 { return 0 }
 func verifAtomArg(i, k int, v any) bool        { return false }
 func verifAssertCanBe(b bool, msg string) {}
+
+func verifIteU32(c bool, a, b uint32) uint32 {
+	if c {
+		return a
+	}
+	return b
+}
